@@ -29,4 +29,5 @@ pub mod gen;
 pub mod glue;
 pub mod model;
 pub mod pat;
+pub mod refparse;
 pub mod roll;
